@@ -215,6 +215,40 @@ pub fn generate(family: &str, seed: u64, tier: &str) -> Vec<String> {
                             if i % 2 == 0 { sc["pre"] = json!(100000); } else { sc["segs"] = json!(vec![1; wl]); }
                             out.push(sc);
                             i += 1;
+                            if framing != "chunked" || i % 3 == 0 {
+                                for (ci, coding) in ["gzip", "deflate"].iter().enumerate() {
+                                    let cb = with(&base, json!({"coding":coding,"level":6}));
+                                    let crd = render(&cb);
+                                    let (che, cwl) = (gu(&crd.script, "headEnd"), crd.wire.len());
+                                    let mut ok = cb.clone();
+                                    ok["id"] = json!(format!("xj-{}-c{}", i, ci));
+                                    ok["pre"] = json!(100000);
+                                    out.push(ok);
+                                    // cut inside the last octets of the coded stream (gzip: its CRC-32 / length trailer)
+                                    let cend = gu(&crd.script, "codedEnd");
+                                    for back in 1..=8usize {
+                                        if cend <= che + back || framing == "chunked" {
+                                            continue;
+                                        }
+                                        let mut c = cb.clone();
+                                        c["id"] = json!(format!("xj-{}-c{}-cut{}", i, ci, back));
+                                        c["fault"] = json!({"kind":"cut","at":cend - back});
+                                        c["pre"] = json!(100000);
+                                        out.push(c);
+                                    }
+                                    if *coding == "gzip" {
+                                        for bit in [-1i64, -9, -33, -40, -64] {
+                                            let mut c = cb.clone();
+                                            c["id"] = json!(format!("xj-{}-c{}-flip{}", i, ci, -bit));
+                                            c["flipbits"] = json!([bit]);
+                                            c["fault"] = json!({"kind":"bad","what":"trailer"});
+                                            c["pre"] = json!(100000);
+                                            out.push(c);
+                                        }
+                                    }
+                                    let _ = cwl;
+                                }
+                            }
                             // cut at every offset of the body part (the document may be complete, the frame is not)
                             for at in he..wl {
                                 if !thorough && (at + i) % 2 == 1 && at + 8 < wl {
@@ -379,6 +413,9 @@ pub fn generate(family: &str, seed: u64, tier: &str) -> Vec<String> {
                             let v = *r.pick(&[0usize, 1, plen, plen + 7, 1 << 20]);
                             sc["body"]["cl"] = json!([v.to_string()]);
                             sc["body"]["te"] = json!([*r.pick(&["chunked", "Chunked", "CHUNKED", "identity, chunked"])]);
+                        } else if r.chance(1, 6) {
+                            // the list spread over two field lines, chunked on the second
+                            sc["body"]["te"] = json!(["identity", "chunked"]);
                         }
                     }
                     _ => {
@@ -589,6 +626,20 @@ pub fn generate(family: &str, seed: u64, tier: &str) -> Vec<String> {
                             if oi % 2 == 0 { sc["pre"] = json!(10_000_000); } else { sc["segs"] = json!([he + 3, 5, 1]); }
                             push(&mut out, sc);
                         }
+                        if framing == "length" && plen > 0 {
+                            // a Content-Length shorter than the coded stream: the stream is cut by its frame
+                            let clen = gu(&rd.script, "codedEnd") - he;
+                            for (di, d) in [clen - 1, clen / 2, 10usize.min(clen - 1)].iter().enumerate() {
+                                let st = &steps_all[di % 5];
+                                if gu(st, "maxlen") > 0 && plen > gu(st, "maxlen") {
+                                    continue;
+                                }
+                                let mut sc = with(&with(&base, st.clone()), json!({"extra":1,"pre":10_000_000}));
+                                sc["body"]["declared"] = json!(*d);
+                                sc["body"]["cl"] = json!([d.to_string()]);
+                                push(&mut out, sc);
+                            }
+                        }
                         if coding == "gzip" {
                             for bit in 1..=64i64 {
                                 if !thorough && plen > 300 && bit % 5 != 0 {
@@ -662,6 +713,10 @@ pub fn framing_row_to_scenario(row: &Value) -> Option<Value> {
         "expect": {"framing": if f == "reject" { "close" } else { f }, "reject": f == "reject"},
         "steps": [["send"], ["reads"]], "pat": [3], "extra": 1, "pre": 100000,
     });
+    if (extra + gu(row, "status") + cl.len() + te.len()) % 2 == 1 && f != "reject" {
+        // the same row read with the one-shot helper: it must follow the framing that was chosen, not a header field
+        sc["steps"] = json!([["send"], ["bytes"]]);
+    }
     if f != "close" && f != "reject" && !(f == "length" && gu(row, "n") > 5) {
         sc["garbage"] = json!(extra);
     }
